@@ -32,6 +32,12 @@ def build_args(ex, k, f):
             ls = lane_syms(nm, n, w)
             if isinstance(pty, PtrT):   # emulated: passed by pointer
                 raise Unsupported('by-pointer register argument')
+            conc = k.meta.get('concrete', {}).get(nm)
+            if conc is not None:
+                # concrete operand (special-value obligations): the executor folds the whole kernel with exact IEEE semantics
+                val = ex.from_bits(pty, concat_le([(int(x), w) for x in conc]))
+                args.append(val); desc.append(dict(kind='v', ty=ty, lanes=[z3.BitVecVal(int(x), w) for x in conc], name=nm, concrete=True))
+                continue
             val = ex.from_bits(pty, concat_le([(x, w) for x in ls]))
             args.append(val); desc.append(dict(kind='v', ty=ty, lanes=ls, name=nm))
         elif kind == 'm':
